@@ -19,6 +19,35 @@ ALSO = {
 }
 
 
+class _Sink(logging.Handler):
+    """Formats every record (so the library's log calls are really evaluated) and throws the text away."""
+
+    records = 0
+
+    def emit(self, record):
+        try:
+            self.format(record)
+            _Sink.records += 1
+        except Exception:  # noqa: BLE001
+            self.handleError(record)  # logging's own policy: a traceback on stderr
+
+
+_SINK = _Sink()
+
+
+def set_logging(on):
+    """Part of the environment of a case: the library's logger at DEBUG with a handler, or logging disabled."""
+    root = logging.getLogger()
+    if on:
+        logging.disable(logging.NOTSET)
+        if _SINK not in root.handlers:
+            root.handlers[:] = [_SINK]
+        root.setLevel(logging.DEBUG)
+        logging.getLogger("asyncio").setLevel(logging.CRITICAL)  # the loop's own chatter is not under test
+    else:
+        logging.disable(logging.CRITICAL)
+
+
 def mine(cid, clause):
     return clause.split(".")[0] == cid or any(clause.startswith(a) for a in ALSO.get(cid, ()))
 
@@ -46,6 +75,10 @@ def run_unit(cid, tier, seed, fam, start, count):
         case = spec.make_case(fam, seed, i, tier)
         if case is None:
             continue
+        debug_log = i % 4 == 1
+        set_logging(debug_log)
+        if debug_log:
+            sit["env.debug_logging_cases"] += 1
         res = spec.run_case(case)
         evals += res.get("evals", 1)
         sit.update(res.get("sit", {}))
@@ -76,6 +109,8 @@ def run_unit(cid, tier, seed, fam, start, count):
     if tapped:
         tap.stop()
         extra["tapped_executions"] = extra.get("tapped_executions", 0) + min(tap_n, count)
+    set_logging(False)
+    sit["env.log_records_formatted"] += _Sink.records
     th, ra = tap.drain()
     if th or ra:
         extra.setdefault("cancel_sites", Counter()).update(th)
